@@ -9,7 +9,14 @@ claim("C20",
       "Static, per-type and per-path: every generated isDuplicate compares each RDATA field with the same field of the other record through the comparator of the field's wire kind (names case-insensitively), nothing but RDATA takes part; copy initialises field i from field i; header comparison reads class/type/name only; equal() folds both sides identically; Dedup only lowers the survivor's TTL and compacts in order. Necessary structural conditions; the equivalence-relation and wire-octet equality clauses over all value pairs are not decided.",
       STATIC_NOTE, "AST sibling conformance of 80 generated comparators against the struct tags; SSA edge-dominance guards for IsDuplicate/Dedup")
 
+claim("C04",
+      "Static, all paths: the compressible-name set (tags and pack flags of all 81 types and every other caller of packDomainName) equals the RFC 1035 list; PackBuffer compresses only under Compress && isCompressible(); map insertion only below 1<<14 and at the offset the label is written; pointers only from map hits under compress, xor 0xC000; keys are unmodified substrings of the name (case preserved) including inside the map accessors; every name field of every type is unpacked through the pointer-following decoder, whose 14-bit target decode is fingerprinted. Necessary structural conditions; 'decodes to the same message' and 'never longer' are not decided.",
+      STATIC_NOTE, "AST tag/flag conformance against RFC 3597 s.4 list; SSA edge-dominance and value-identity rules on packDomainName/UnpackDomainName")
+claim("C08",
+      "Static, all 81 types and all paths: symbolic evaluation of every len method into a linear form compared with the per-kind length terms (exact for integer/address/name/character-string kinds, upper bound for blobs), name terms measured at the accumulated offset with the RFC 1035 compress flag; running offset threaded through msgLenWithCompressionMap; Pack buffer = uncompressed length + 1, reused iff large enough; Len/PackBuffer share the compression gate; simulated compression obeys the 1<<14 limit; escapedNameLen subtract/skip pairing. Numeric equality of simulated vs real compression and bitmap arithmetic are not decided.",
+      STATIC_NOTE, "symbolic linear-form evaluation of len bodies (AST) against kind table; SSA guards")
+
 _pending = "rules for this property are designed (DESIGN.md §4) but not implemented yet; not claimed until they run"
-for p in ["C02","C03","C04","C05","C06","C07","C08","C09","C10","C11","C12","C13","C14","C15","C16","C17","C18"]:
+for p in ["C02","C03","C05","C06","C07","C09","C10","C11","C12","C13","C14","C15","C16","C17","C18"]:
     na(p, _pending)
 na("C19", "every clause is an equality between index arithmetic on a runtime string and its label sequence; no pairing/ownership/ordering/table structure to decide statically (DESIGN.md §8)")
